@@ -40,6 +40,14 @@ func samVarGen(r *RNG, id string, maxIns int, window bool) *Case {
 			}
 		}
 	}
+	// an insertion after the last reference base (reported as ins:L:n; the reference row of the pair then ends in gaps):
+	// one more query, aligned to the last ten bases, whose CIGAR ends in I
+	if maxIns > 0 && L >= 12 && r.Chance(1, 4) {
+		k := r.Range(1, 3)
+		tail := mutateSeq(r, strings.ToUpper(sc.ref[L-10:]), symACGT, 1, 2, false)
+		sc.recs = append(sc.recs, samRec{name: "tail_ins", flag: 0, pos: L - 9, cigar: fmt.Sprintf("10M%dI", k), seq: tail + randSeq(r, k, symACGT, false)})
+		sc.tags["insertion-after-the-last-base"] = true
+	}
 	// a read that is the reference itself (no mismatch, no indel), somewhere after the first read: its row is empty
 	if len(sc.recs) > 0 && r.Chance(1, 4) {
 		same := samRec{name: "same_as_ref", flag: 0, pos: 1, cigar: fmt.Sprintf("%dM", L), seq: strings.ToUpper(sc.ref)}
